@@ -228,6 +228,7 @@ func (c *Conn) WriteToPair(pairID uint64, packet []byte) (int, error) {
 
 	n, err := pair.Write(packet)
 	if n > 0 {
+		c.bytesSent.Add(uint64(n))
 		pair.UpdatePacketSent(n)
 	}
 
